@@ -10,7 +10,8 @@
 (***************************************************************************)
 EXTENDS Integers, Sequences, FiniteSets, TLC, Json
 
-Phases == {"pre_startup", "awaiting_password", "idle", "in_batch", "in_transaction", "in_copy", "admin_idle"}
+\* queued: the sender's request waits for the pool's only server connection, which another client holds in a transaction
+Phases == {"pre_startup", "awaiting_password", "idle", "in_batch", "in_transaction", "in_copy", "admin_idle", "queued"}
 \* malformation classes per phase
 PreStartup == {"len_zero", "len_three", "len_negative", "len_huge", "len_longer_than_content", "unknown_code",
                "startup_no_terminator", "startup_odd_pairs", "cancel_random_key", "ssl_then_garbage", "empty_then_close"}
@@ -23,7 +24,10 @@ BodyMal == {"query_empty_body", "query_no_terminator", "parse_empty_body", "pars
             "bind_param_length_huge"}
 OrderMal == {"stray_sync", "stray_copydata", "stray_copydone", "stray_copyfail", "stray_execute", "stray_bind",
              "stray_describe", "stray_flush", "password_message_now"}
+\* abrupt departures: the sender's socket is reset while a request of his is queued or half served
+AbruptMal == {"reset_while_query_queued", "reset_while_batch_queued", "reset_while_batch_with_local_reply_queued"}
 Mal(p) == CASE p = "pre_startup" -> PreStartup
+            [] p = "queued" -> AbruptMal
             [] p = "awaiting_password" -> PasswordMal
             [] p = "admin_idle" -> FrameMal \cup {"query_empty_body", "query_no_terminator", "stray_sync"}
             [] OTHER -> FrameMal \cup BodyMal \cup OrderMal
